@@ -4,7 +4,9 @@
 P=$1; WT=$2; NAME=$3; shift 3
 D=/verif/seeded/$NAME; mkdir -p $D
 git -C $WT diff -- jumanji > $D/patch.diff
-cp $WT/_seed/demo.py $D/demo.py 2>/dev/null; cp $WT/_seed/meta.json $D/meta.seed.json 2>/dev/null
-echo "--- demo on changed tree:"; (cd $WT && timeout 900 /venv/bin/python _seed/demo.py > /tmp/demo_changed.log 2>&1; echo "exit=$?"; tail -3 /tmp/demo_changed.log)
-echo "--- demo on /repo:"; (cd /repo && mkdir -p /tmp/_seedrun && cp $WT/_seed/demo.py /tmp/_seedrun/demo.py && PYTHONPATH=/repo timeout 900 /venv/bin/python /tmp/_seedrun/demo.py > /tmp/demo_orig.log 2>&1; echo "exit=$?"; tail -2 /tmp/demo_orig.log)
+echo "--- files changed:"; git -C $WT status --short | grep -v '??' 
+DEMO=$WT/demo.py; [ -f $WT/_seed/demo.py ] && DEMO=$WT/_seed/demo.py
+cp $DEMO $D/demo.py
+echo "--- demo on changed tree:"; (cd /tmp && PYTHONPATH=$WT timeout 900 /venv/bin/python $D/demo.py > /tmp/demo_changed_$NAME.log 2>&1; echo "exit=$?"; tail -3 /tmp/demo_changed_$NAME.log)
+echo "--- demo on /repo:"; (cd /tmp && PYTHONPATH=/repo timeout 900 /venv/bin/python $D/demo.py > /tmp/demo_orig_$NAME.log 2>&1; echo "exit=$?"; tail -2 /tmp/demo_orig_$NAME.log)
 echo "--- check $P against changed tree:"; cd /verif && VERIF_REPO=$WT ./check $P --no-evidence "$@" 2>&1 | grep -v Warn | grep -E "VIOLATION|CHECKER-ERROR|UNDECIDED|tier=" | cut -c1-260 | head -12
